@@ -345,9 +345,10 @@ Qed.
 
 (** ** Part 3: the operations *)
 
-(** the signer of a create message is not a module account (module accounts cannot sign) *)
+(** the signer of a create message is not a module account (module accounts cannot sign); the histories of
+    the theorems contain no parameter change (see ParamChange.v for what survives one) *)
 Definition wf_op (o : op) : Prop :=
-  match o with Create m => m_sender m <> ESC /\ m_sender m <> BLK | _ => True end.
+  match o with Create m => m_sender m <> ESC /\ m_sender m <> BLK | SetParams _ _ => False | _ => True end.
 
 Lemma with_asset_Some s d f s1 : with_asset s d f = Some s1 ->
   exists a p a', get d (st_assets s) = Some a /\ get_param (st_params s) d = Some p /\ f p a = Some a'
@@ -961,7 +962,7 @@ Qed.
 Lemma step_inv s o : Inv s -> Strict s -> wf_op o ->
   Inv (step s o) /\ Strict (step s o) /\ st_params (step s o) = st_params s.
 Proof.
-  intros I S W. unfold step. destruct o as [m|who id secret|dts]; simpl.
+  intros I S W. unfold step. destruct o as [m|who id secret|dts|gw gP]; simpl.
   - destruct (create s m) as [s'|] eqn:Hc; [|auto].
     destruct (create_open_rel s m s' I W Hc) as (dr & R). pose proof (create_lock _ _ _ Hc) as Hl.
     split; [exact (open_rel_inv _ _ _ _ I R)|]. split; [|exact (or_params _ _ _ _ R)].
@@ -973,6 +974,7 @@ Proof.
     destruct Hs as (_ & c & Hg & Ho & _ & R).
     split; [exact (close_rel_inv _ _ _ _ _ I R)|]. split; [exact (close_rel_strict _ _ _ _ _ S R)|exact (cr_params _ _ _ _ _ R)].
   - destruct (adv_spec dts s I S) as (I' & S' & Hp & _). auto.
+  - destruct W.
 Qed.
 
 (** one step never deletes a contract and changes it at most by closing it, if it was open *)
@@ -980,7 +982,7 @@ Lemma step_contract s o : Inv s -> Strict s -> wf_op o -> forall id c, get id (s
   exists c', get id (st_contracts (step s o)) = Some c'
     /\ (c' = c \/ (c_state c = Open /\ exists st h, st <> Open /\ c' = close c st h)).
 Proof.
-  intros I S W id c Hg. unfold step. destruct o as [m|who id0 secret|dts]; simpl.
+  intros I S W id c Hg. unfold step. destruct o as [m|who id0 secret|dts|gw gP]; simpl.
   - destruct (create s m) as [s'|] eqn:Hc; [|exists c; auto].
     destruct (create_open_rel s m s' I W Hc) as (dr & R).
     exists c. split; [|left; reflexivity]. rewrite (or_contracts _ _ _ _ R), get_set_other; [exact Hg|].
@@ -994,6 +996,7 @@ Proof.
   - destruct (adv_spec dts s I S) as (_ & _ & _ & Hc). destruct (Hc id c Hg) as (c' & Hg' & Hor).
     exists c'. split; [exact Hg'|]. destruct Hor as [->|(Ho & h & _ & ->)]; [left; reflexivity|].
     right. split; [exact Ho|]. exists Refunded, h. split; [discriminate|reflexivity].
+  - destruct W.
 Qed.
 
 Definition params_ok (P : list aparam) : Prop := Forall (fun p => 0 <= ap_limit p /\ 0 <= ap_tbl p) P.
@@ -1366,10 +1369,11 @@ Qed.
 
 Lemma step_Acc s o : Acc s (step s o).
 Proof.
-  unfold step. destruct o as [m|who id secret|dts]; simpl.
+  unfold step. destruct o as [m|who id secret|dts|gw gP]; simpl.
   - destruct (create s m) eqn:H; [exact (create_Acc _ _ _ H)|apply Acc_refl].
   - destruct (claim s who id secret) eqn:H; [exact (claim_Acc _ _ _ _ _ H)|apply Acc_refl].
   - apply fold_Acc. intros; apply begin_block_Acc.
+  - destruct ((gw =? GOV) && params_valid gP); [apply Acc_same; reflexivity|apply Acc_refl].
 Qed.
 
 Lemma bank_is_log_lemma P b t0 ops a d :
@@ -1400,7 +1404,7 @@ Lemma created_open_lemma s o id c : Inv s -> Strict s -> wf_op o ->
   get id (st_contracts s) = None -> get id (st_contracts (step s o)) = Some c ->
   c_state c = Open /\ c_closed c = 0 /\ st_height s < c_exp c /\ exists m, o = Create m /\ id = id_of m.
 Proof.
-  intros I S W Hn Hg. unfold step in Hg. destruct o as [m|who id0 secret|dts]; simpl in Hg.
+  intros I S W Hn Hg. unfold step in Hg. destruct o as [m|who id0 secret|dts|gw gP]; simpl in Hg.
   - destruct (create s m) as [s'|] eqn:Hc; [|congruence].
     destruct (create_open_rel s m s' I W Hc) as (dr & R). pose proof (create_lock _ _ _ Hc) as Hl.
     rewrite (or_contracts _ _ _ _ R), get_set in Hg. destruct (eq_dec id (id_of m)) as [->|Hne]; [|congruence].
@@ -1414,6 +1418,7 @@ Proof.
       destruct (begin_block_spec s dt I S) as (I1 & S1 & _ & _ & Hc). apply IH; [exact I1|exact S1|].
       rewrite Hc, Hn. reflexivity. }
     rewrite (H dts s I S Hn) in Hg. discriminate.
+  - destruct W.
 Qed.
 
 Lemma claim_htlt_win s id c s' d x cs : c_amount c = (d, x) :: cs -> claim_htlt s id c = Some s' ->
